@@ -1,7 +1,65 @@
-(* Properties_C04.v -- placeholder until FsModel lands. *)
-From LCDB Require Import Base LogFormat LogFormatClosed.
+(* Properties_C04.v -- C04: write batches are all-or-nothing.
+   (a) crash side: a cut log reads back as whole records only (no report), a record is a whole
+       batch whose decoded entry count must equal its header count, group commit (batch append)
+       preserves each member's operations and order, and the record-level crash theorem says the
+       recovered state is made of whole batches applied in order.
+   (b) concurrent side (LTS of lcdb's critical sections): the published sequence is always the end
+       of a whole batch, and every reader's captured view is a prefix of the committed batches. *)
+From Coq Require Import List NArith Bool Arith.
+From LCDB Require Import Base LogFormat LogFormatClosed Batch BatchProofs FsModel FsProofs Lts LtsProofs.
+Local Open Scope N_scope.
+
 Theorem C04_log_cut_is_record_prefix : forall rs n,
   Forall (fun r => wf_bytes r = true) rs -> (n <= length (write_log rs))%nat ->
   exists k, read_log (firstn n (write_log rs)) = map Rec (firstn k rs).
 Proof. exact read_cut_prefix. Qed.
 Print Assumptions C04_log_cut_is_record_prefix.
+
+Theorem C04_batch_roundtrip : forall seq ops,
+  wf_ops ops = true -> batch_iterate (batch_build seq ops) = (ops, BOk).
+Proof. exact batch_iterate_build. Qed.
+Print Assumptions C04_batch_roundtrip.
+
+Theorem C04_batch_count_checked : forall b ops,
+  batch_iterate b = (ops, BOk) -> nlen ops = batch_count b.
+Proof. exact batch_iterate_ok_count. Qed.
+Print Assumptions C04_batch_count_checked.
+
+Theorem C04_batch_count_mismatch_rejected : forall seq ops c,
+  wf_ops ops = true -> c mod 4294967296 <> nlen ops ->
+  batch_iterate (batch_set_count (batch_build seq ops) c) = (ops, BWrongCount).
+Proof. exact batch_iterate_build_wrong_count. Qed.
+Print Assumptions C04_batch_count_mismatch_rejected.
+
+Theorem C04_group_append_keeps_members : forall a b oa ob,
+  batch_iterate a = (oa, BOk) -> batch_iterate b = (ob, BOk) ->
+  nlen oa + nlen ob < 4294967296 ->
+  batch_iterate (batch_append a b) = (oa ++ ob, BOk) /\
+  batch_count (batch_append a b) = batch_count a + batch_count b /\
+  batch_sequence (batch_append a b) = batch_sequence a.
+Proof. exact batch_append_iterate. Qed.
+Print Assumptions C04_group_append_keeps_members.
+
+(* after a process crash at ANY point of ANY protocol-conforming trace the recovered state is a
+   sequence of WHOLE batches: exactly the acknowledged ones in order (+ possibly the one in flight) *)
+Theorem C04_recovered_whole_batches : forall tr, wf_protocol tr = true -> forall p,
+  iget (written_image (firstn p tr)) FCurrent <> None ->
+  exists s old, recover (written_image (firstn p tr)) = Some s /\
+    Forall (fun b => flushed (firstn p tr) b /\
+                     exists n, In b (log_batches (firstn p tr) n) /\ n < r_log s) old /\
+    (old ++ applied_batches s = acked_before tr p \/
+     exists b, in_flight tr p b /\ old ++ applied_batches s = acked_before tr p ++ [b]).
+Proof. exact FsProofs.C03_process_crash. Qed.
+Print Assumptions C04_recovered_whole_batches.
+
+Theorem C04_published_on_batch_boundary : forall th s, reachable th s ->
+  l_last_seq s = length (concat (l_committed s)) /\ firstn (l_last_seq s) (l_store s) = concat (l_committed s) /\
+  (forall t q k, l_pc s t = PRead q k -> exists j, firstn q (l_store s) = concat (firstn j (l_committed s))) /\
+  (forall h, In h (l_snaps s) -> exists j, firstn h (l_store s) = concat (firstn j (l_committed s))).
+Proof. exact published_on_batch_boundary. Qed.
+Print Assumptions C04_published_on_batch_boundary.
+
+Theorem C04_group_commit_keeps_batches : forall s t s' n, l_pc s t = PLogged n -> lts_step s (WLeaderPublish t) = Some s' ->
+  l_committed s' = l_committed s ++ group_batches (firstn n (l_queue s)).
+Proof. exact group_commit_keeps_batches. Qed.
+Print Assumptions C04_group_commit_keeps_batches.
